@@ -53,10 +53,12 @@ prop("C14",
 # C15 Schema.Check
 prop("C15",
      family="check",
-     mc=lambda tier: [("MC_Check", "MC_Check_quick.cfg")] + _t(tier, [], [("MC_Check", "MC_Check_thorough.cfg")]),
-     gen=lambda tier: [("MC_Check", "Gen_Check_quick.cfg")] + _t(tier, [], [("MC_Check", "Gen_Check_thorough.cfg")]),
+     mc=lambda tier: [("MC_Check", "MC_Check_quick.cfg"), ("MC_Check", "MC_Check_under.cfg")] +
+     _t(tier, [], [("MC_Check", "MC_Check_thorough.cfg")]),
+     gen=lambda tier: [("MC_Check", "Gen_Check_quick.cfg"), ("MC_Check", "Gen_Check_under.cfg")] +
+     _t(tier, [], [("MC_Check", "Gen_Check_thorough.cfg")]),
      driver=lambda tier, seed, gen, out: ["check", "-gen", gen, "-out", out, "-seed", str(seed)] +
-     _t(tier, ["-sample", "30000", "-random", "5000"], ["-random", "200000"]),
+     _t(tier, ["-sample", "40000", "-random", "5000"], ["-random", "200000"]),
      trace=("Trace_Schema", "Trace_Schema.cfg"),
      required=["Check:clean", "Check:errors"],
      level_text="TLC checks an operational transcription of the Check loop against the declarative set of offending "
